@@ -74,6 +74,9 @@ pub enum Op {
     BigStrings { name: String, kib: usize, count: usize },
     /// metamorphic: on two throw-away clones, `x op= (e)` and `x = x op (e)` must agree
     OpAssignEquiv { name: String, op: AOp, rhs: Expr },
+    /// one of the typed `Node::eval_<type>_with_context[_mut]` entries on an assembled tree: the
+    /// same evaluation (same effects on the context), the result projected to the type
+    EvalTyped { program: Expr, typed: usize, mutable: bool },
 }
 
 impl Op {
@@ -106,6 +109,11 @@ impl Op {
             Op::ResetMacro => "reset_context_map_macro".into(),
             Op::ResetDefault => "reset_default".into(),
             Op::OpAssignEquiv { op, .. } => format!("opassign_equiv:{}", op.sym()),
+            Op::EvalTyped { typed, mutable, .. } => format!(
+                "eval_typed{}:{}",
+                if *mutable { "_mut" } else { "" },
+                crate::env::TYPED_ENTRIES[*typed % 8]
+            ),
         }
     }
 
@@ -115,6 +123,7 @@ impl Op {
                 3 + program.size() * 2 + faults.len()
             },
             Op::OpAssignEquiv { rhs, .. } => 4 + rhs.size() * 2,
+            Op::EvalTyped { program, .. } => 3 + program.size() * 2,
             Op::SetValue { .. } | Op::CallFunction { .. } => 2,
             _ => 1,
         }
@@ -172,6 +181,12 @@ impl Op {
                 name,
                 op.plain().map(|b| b.sym()).unwrap_or("?"),
                 rhs.render()
+            ),
+            Op::EvalTyped { program, typed, mutable } => format!(
+                "Node::eval_{}_with_context{}(`{}`)",
+                crate::env::TYPED_ENTRIES[*typed % 8],
+                if *mutable { "_mut" } else { "" },
+                program.render()
             ),
         }
     }
@@ -240,6 +255,12 @@ impl Op {
                 .with("operator", Json::s(op.sym()))
                 .with("source", Json::s(rhs.render()))
                 .with("rhs", rhs.to_json()),
+            Op::EvalTyped { program, typed, mutable } => Json::obj()
+                .with("op", Json::s("eval_typed"))
+                .with("source", Json::s(program.render()))
+                .with("entry_point", Json::s(crate::env::TYPED_ENTRIES[*typed % 8]))
+                .with("mutable", Json::Bool(*mutable))
+                .with("program", program.to_json()),
         }
     }
 
@@ -315,6 +336,14 @@ impl Op {
                     .find(|o| o.sym() == j.str_field("operator").unwrap_or(""))
                     .ok_or("unknown operator")?,
                 rhs: Expr::from_json(j.field("rhs")?)?,
+            },
+            "eval_typed" => Op::EvalTyped {
+                program: Expr::from_json(j.field("program")?)?,
+                typed: crate::env::TYPED_ENTRIES
+                    .iter()
+                    .position(|e| *e == j.str_field("entry_point").unwrap_or(""))
+                    .ok_or("unknown entry point")?,
+                mutable: j.get("mutable").and_then(|b| b.as_bool()).unwrap_or(true),
             },
             other => return Err(format!("unknown op {}", other)),
         })
@@ -452,6 +481,7 @@ fn lookup_names() -> Vec<&'static str> {
     v.push("g");
     v.push(UNBOUND_NAME);
     v.extend(crate::env::EXTRA_VAR_NAMES.iter().copied());
+    v.extend(crate::env::API_ONLY_NAMES.iter().copied());
     v.push("F");
     v
 }
@@ -550,6 +580,7 @@ pub fn new_recorder() -> Rec {
         closures_record: true,
         enabled: false,
         over_budget: false,
+        panic_faults: false,
     }))
 }
 
@@ -800,9 +831,49 @@ pub fn apply_real(ctx: &mut Ctx, op: &Op, rec: Option<&Rec>) -> String {
                             );
                         }
                     }
+                    // and with the right-hand side written without parentheses (it binds tighter
+                    // than any assignment operator: `x op= e` still means `x = x op (e)`)
+                    if !matches!(rhs, Expr::Chain(_) | Expr::Assign(..) | Expr::AssignTo(..)) {
+                        for bare in [rhs.render(), rhs.render_loose()] {
+                            let sa = format!("{} {} {}", name, op.sym(), bare);
+                            let sb = format!(
+                                "{} = {} {} ({})",
+                                name,
+                                name,
+                                op.plain().unwrap_or(Bin::Add).sym(),
+                                bare
+                            );
+                            let mut c1 = ctx.clone();
+                            let mut c2 = ctx.clone();
+                            let r1 = evalexpr::eval_with_context_mut(&sa, &mut c1);
+                            let r2 = evalexpr::eval_with_context_mut(&sb, &mut c2);
+                            let s1 = format!("{} vars={:?}", cr(&r1), snapshot_vars(&c1));
+                            let s2 = format!("{} vars={:?}", cr(&r2), snapshot_vars(&c2));
+                            if s1 != s2 {
+                                return format!(
+                                    "DIFFERENT: `{}` gives {} but `{}` gives {}",
+                                    sa, s1, sb, s2
+                                );
+                            }
+                        }
+                    }
                 }
                 "equivalent".to_string()
             })
+        },
+        Op::EvalTyped { program, typed, mutable } => {
+            let tree = program.assemble(true);
+            arm(rec, &[]);
+            let r = guard(|| {
+                let r = if *mutable {
+                    crate::env::eval_entry_mut(&tree, None, ctx, Entry::Tree, *typed)
+                } else {
+                    crate::env::eval_entry_imm(&tree, None, &*ctx, Entry::Tree, *typed)
+                };
+                cr(&r)
+            });
+            let log = disarm(rec);
+            format!("{} {}", r, render_log(log.as_deref()))
         },
         Op::Fork | Op::Overwrite { .. } | Op::Reset | Op::ResetMacro | Op::ResetDefault => {
             "()".to_string()
@@ -889,6 +960,7 @@ pub fn apply_model(
                 faults,
                 fired: Vec::new(),
                 counters: m.counters.clone(),
+                panic_faults: false,
             };
             let r: R = match ref_eval(&tree, &mut env, immutable, d) {
                 Ok(v) => Ok(v),
@@ -1014,10 +1086,43 @@ pub fn apply_model(
         Op::OpAssignEquiv { name, rhs, .. } => {
             // precondition of the equivalence: the variable is bound (otherwise the two forms
             // legitimately fail at different points) and the operand contains no assignment
-            if !m.vars.contains_key(name) || rhs.has_assignment() {
+            // ... and the name can be spelled in an expression
+            if !m.vars.contains_key(name)
+                || rhs.has_assignment()
+                || crate::env::API_ONLY_NAMES.contains(&name.as_str())
+            {
                 return Err(());
             }
             "equivalent".to_string()
+        },
+        Op::EvalTyped { program, typed, mutable } => {
+            let tree = program.assemble(true);
+            let mut env = RefEnv {
+                vars: m.vars.clone(),
+                fns: m.fns.clone(),
+                builtins_disabled: m.disabled,
+                kind: CtxKind::Bare,
+                log: Vec::new(),
+                faults: &[],
+                fired: Vec::new(),
+                counters: m.counters.clone(),
+                panic_faults: false,
+            };
+            let r: R = match ref_eval(&tree, &mut env, !*mutable, d) {
+                Ok(v) => Ok(v),
+                Err(RefErr::Lib(e)) => Err(e),
+                Err(RefErr::Skip(_)) => return Err(()),
+            };
+            let r = crate::env::project_typed(r, *typed);
+            if *mutable {
+                m.vars = env.vars;
+            }
+            m.counters = env.counters;
+            format!(
+                "{} {}",
+                cr(&r),
+                render_log(if record_calls { Some(&env.log) } else { None })
+            )
         },
         Op::Fork | Op::Overwrite { .. } | Op::Reset | Op::ResetMacro | Op::ResetDefault => {
             "()".to_string()
@@ -1333,7 +1438,7 @@ pub fn gen_history(work: &mut Rng, sched: &mut Rng, conf: &mut Rng, d: &mut Dele
         };
         let op = match kind {
             0 => {
-                let n = name(work);
+                let n = if work.percent(3) { work.pick(&crate::env::API_ONLY_NAMES).to_string() } else { name(work) };
                 let value = match model.vars.get(&n) {
                     Some(old) if work.percent(cfg.well_typed_pct) => {
                         // same type: overwrite (for tuples possibly another length, incl. the
@@ -1364,14 +1469,22 @@ pub fn gen_history(work: &mut Rng, sched: &mut Rng, conf: &mut Rng, d: &mut Dele
                 } else {
                     vec![]
                 };
-                if kind == 1 {
+                if work.percent(20) {
+                    Op::EvalTyped { program, typed: 1 + work.usize_below(7), mutable: kind == 1 || work.percent(50) }
+                } else if kind == 1 {
                     Op::EvalMut { program, form, entry, faults }
                 } else {
                     Op::EvalImm { program, form, entry, faults }
                 }
             },
             3 => Op::GetValue {
-                name: if work.percent(15) { UNBOUND_NAME.to_string() } else { name(work) },
+                name: if work.percent(15) {
+                    UNBOUND_NAME.to_string()
+                } else if work.percent(3) {
+                    work.pick(&crate::env::API_ONLY_NAMES).to_string()
+                } else {
+                    name(work)
+                },
             },
             4 => Op::IterVars,
             5 => Op::IterNames,
@@ -1426,7 +1539,12 @@ pub fn gen_history(work: &mut Rng, sched: &mut Rng, conf: &mut Rng, d: &mut Dele
             },
             _ => {
                 // metamorphic op-assign check on a bound variable, with an effect-free operand
-                let bound: Vec<String> = model.vars.keys().cloned().collect();
+                let bound: Vec<String> = model
+                    .vars
+                    .keys()
+                    .filter(|k| !crate::env::API_ONLY_NAMES.contains(&k.as_str()))
+                    .cloned()
+                    .collect();
                 if bound.is_empty() {
                     Op::GetValue { name: name(work) }
                 } else {
@@ -1537,6 +1655,11 @@ pub fn shrink_history(h: &History) -> Vec<History> {
             Op::OpAssignEquiv { name, op, rhs } => {
                 for p in rhs.shrink_candidates() {
                     variants.push(Op::OpAssignEquiv { name: name.clone(), op: *op, rhs: p });
+                }
+            },
+            Op::EvalTyped { program, typed, mutable } => {
+                for p in program.shrink_candidates() {
+                    variants.push(Op::EvalTyped { program: p, typed: *typed, mutable: *mutable });
                 }
             },
             Op::SetValue { name, value } => {
